@@ -446,6 +446,8 @@ func (h *c16) runHandler(ctx sdk.Context, msg sdk.Msg) (err error) {
 			err = &PanicError{Val: e}
 		}
 	}()
+	g0 := ctx.GasMeter().GasConsumed()
+	defer func() { noteGas(ctx.GasMeter().GasConsumed() - g0) }() // C12: gas of the message, failed or not
 	_, err = h.f.App.MsgServiceRouter().Handler(msg)(ctx, msg)
 	return err
 }
